@@ -124,6 +124,10 @@ Definition plain_wfb (p : plain) : bool :=
                      | None => forallb (fun kv => kv.2 =? 0) (map_to_list am.2) end)
           (map_to_list (p_stor p)).
 
+(* boolean form of plain_nocode (part of HistOK) *)
+Definition plain_nocodeb (p : plain) : bool :=
+  forallb (fun ai => match i_code ai.2 with None => true | Some _ => false end) (map_to_list (p_acc p)).
+
 Fixpoint monitor_txs (h : hstate) (txs : list txout) (refs : list plain_l) : option hstate :=
   match txs, refs with
   | [], [] => Some h
@@ -146,7 +150,7 @@ Fixpoint monitor_groups (h : hstate) (gs : list (list txout)) (refs : list (list
   | _, _ => None
   end.
 Definition monitor (b : base) : bool :=
-  plain_wfb (dec_plain (c_p0 b))
+  plain_wfb (dec_plain (c_p0 b)) && plain_nocodeb (dec_plain (c_p0 b))
   && match monitor_groups (h0 (dec_plain (c_p0 b))) (groups_of b) (c_refs b) with
      | Some _ => true | None => false end.
 
